@@ -276,6 +276,15 @@ def run(ck):
             v = d[0]["var"]
             tests = [b for b in f.blocks.values() if b.term and b.term.get("k") in ("if", "lor") and ("v:" + v) in (b.term.get("refs") or [])]
             tested = any(any(x["k"] == "throw" for x in cfg.events_from_block(f, b.succs[0], stop=lambda x: x["k"] == "throw")) for b in tests)
+        else:
+            # the result is handed straight to a checking helper (`check(inet_pton(..), "message")`): in the flattened function the
+            # helper's parameter is bound to the call, tested, and one arm of the test throws
+            ff = prog.flat(f) if not f.is_lambda else f
+            ct = re.sub(r"\s+", "", e.get("t") or "")
+            pv_ = {x.get("var") for x in ff.events("bind") if ct and ct in re.sub(r"\s+", "", (x.get("init") or {}).get("t") or "")}
+            tests = [b for b in ff.blocks.values() if b.term and b.term.get("k") in ("if", "lor", "land") and len(b.succs) == 2 and
+                     any(r_.startswith("v:") and r_[2:].split("@")[0] in pv_ for r_ in (b.term.get("refs") or []))]
+            tested = any(any(x["k"] == "throw" for x in cfg.events_from_block(ff, s_, stop=lambda x: x["k"] == "throw")) for b in tests for s_ in b.succs if s_ is not None)
         ck.ob("C19-R3", "inet_pton in %s" % f.base.replace(P, ""), okf and tested, e.loc, f, "result tested, failure throws" if tested else "result of inet_pton is not checked")
     ntops = [e for f in prog.funcs.values() for e in f.calls(lambda e: (e.get("callee") or "") == "inet_ntop") if in_scope(f)]
     ck.require(ntops, "inet_ntop not found")
